@@ -281,6 +281,13 @@ func genFastReadStruct(w *codewriter, rwctx *golang.ReadWriteContext, varname st
 	w.f("if err != nil { goto ReadFieldError }")
 }
 
+// genCheckSize rejects a container size that the rest of the buffer cannot hold
+// (every element takes at least one byte), before memory is allocated for it.
+func genCheckSize(w *codewriter, tmpsize string) {
+	w.UsePkg("io", "")
+	w.f("if %s > len(b)-off { err = io.ErrUnexpectedEOF; goto ReadFieldError }", tmpsize)
+}
+
 func genFastReadList(w *codewriter, rwctx *golang.ReadWriteContext, varname string, depth int) {
 	// var conventions:
 	// - sz is the size of a list
@@ -306,6 +313,7 @@ func genFastReadList(w *codewriter, rwctx *golang.ReadWriteContext, varname stri
 	w.f("_, %s, l, err = x.ReadListBegin(b[off:])", tmpsize)
 	w.f("off += l")
 	w.f("if err != nil { goto ReadFieldError }")
+	genCheckSize(w, tmpsize)
 
 	w.f("%s = make(%s, %s)", varname, rwctx.TypeName.Deref(), tmpsize)
 	w.f("for %s := 0; %s < %s; %s++ {", tmpi, tmpi, tmpsize, tmpi)
@@ -342,6 +350,7 @@ func genFastReadMap(w *codewriter, rwctx *golang.ReadWriteContext, varname strin
 	w.f("_, _, %s, l, err = x.ReadMapBegin(b[off:])", tmpsize)
 	w.f("off += l")
 	w.f("if err != nil { goto ReadFieldError }")
+	genCheckSize(w, tmpsize)
 
 	w.f("%s = make(%s, %s)", varname, rwctx.TypeName, tmpsize)
 	w.f("for %s := 0; %s < %s; %s++ {", tmpi, tmpi, tmpsize, tmpi)
